@@ -12,7 +12,7 @@ from ..loader import AnalysisError, Program
 from ..model import Model
 from ..report import Run
 from ..values import (ELL, Const, DictV, ListV, PropsV, SchemaV, Spread, Sym, Term, TupleV, V, is_ell)
-from ..visits import Config, configs_for, run_visit, substitutor_ctx
+from ..visits import list_shapes, Config, configs_for, run_visit, substitutor_ctx
 from ..vtable import extract
 from .c12 import validated
 
@@ -304,6 +304,63 @@ def _list_cover(run: Run, prog: Program, model: Model, tier: str) -> None:
         else:
             run.holds("LIST-COVER", construct, f.loc, f"{len(rets)} return paths carry every position of the value", nontrivial=True)
     run.floor("LIST-COVER", 30)
+    # ---- positional correspondence in the typed / free form, two elements deep: the member at position j is derived
+    # from value[j] (a memo keyed by equality hands an earlier member's schema to a later, merely EQUAL element)
+    for cfg in [c for c in configs_for(st, "quick") if "elements" not in c.setprops and "len" not in c.setprops
+                and "min_len" not in c.setprops and "max_len" not in c.setprops]:
+        paths = run_visit(prog, model, "Substitutor", "visit_list", cfg, substitutor_ctx, unroll=2)
+        construct = f"Substitutor.visit_list {cfg.label}: positions"
+        probs2: List[str] = []
+        seen2 = 0
+        for p in paths:
+            if p.outcome != "return":
+                continue
+            pr = result_props(p)
+            el = pr.vals.get("elements") if pr is not None else None
+            if not (isinstance(el, ListV) and el.concrete() and len(el.items) == 2):
+                continue
+            seen2 += 1
+            for j, x in enumerate(el.items):
+                k = x.key()
+                other = f"elem{1 - j}@value"
+                if other in k and f"elem{j}@value" not in k:
+                    cond = [("" if b else "not ") + kk for kk, _, b in p.facts if "in(" in kk][-1:]
+                    probs2.append(f"the member at position {j} is derived from value[{1 - j}] ({k[:50]})"
+                                  + (f" when {cond[0][:70]}" if cond else ""))
+        if probs2:
+            run.violated("LIST-COVER", construct, f.loc, "; ".join(sorted(set(probs2)))[:300],
+                         witness="schema.list(schema.any(schema.int, schema.float)) % [1, 1.0] pins position 1 to int(1)")
+        elif seen2:
+            run.holds("LIST-COVER", construct, f.loc, f"on {seen2} two-element paths each member is derived from its own position", nontrivial=True)
+        else:
+            run.undecided("LIST-COVER", construct, f.loc, "no two-element return path")
+
+    # ---------------------------------------------------------------- LIST-GEN: an exact element list generates itself
+    g = model.visitors["Generator"].lookup("visit_list")
+    for name, mk in list_shapes(2):
+        if "..." in name:
+            continue
+        n_members = len([x for x in mk().items])
+        for ln in ((), ("len",), ("min_len",), ("max_len",), ("min_len", "max_len")):
+            cfg = Config(("elements",) + ln, {"elements": mk}, label=f"elements={name}" + "".join("," + x for x in ln))
+            paths = run_visit(prog, model, "Generator", "visit_list", cfg, None, unroll=1)
+            construct = f"Generator.visit_list {cfg.label}"
+            probs3: List[str] = []
+            for p in paths:
+                if p.outcome == "raise":
+                    continue         # C01 judges refusals
+                v = p.value
+                if isinstance(v, ListV) and v.concrete() and len(v.items) == n_members:
+                    continue
+                draws = [e for e in p.events if e.kind == "call" and isinstance(e.data.get("callee"), str) and e.data["callee"].endswith("random_int")]
+                probs3.append(f"returns {v.key()[:50] if v is not None else None}" + (" after drawing a length" if draws else "")
+                              + f" instead of the {n_members} generated member(s)")
+            if probs3:
+                run.violated("LIST-GEN", construct, g.loc, "; ".join(sorted(set(probs3)))[:300],
+                             witness="fake(schema.list(schema.int).len(0, 3) % []) != []")
+            elif paths:
+                run.holds("LIST-GEN", construct, g.loc, "one generated member per declared element, nothing else", nontrivial=True)
+    run.floor("LIST-GEN", 8)
 
 
 SU = "d42/substitution/_substitutor.py"
